@@ -39,6 +39,11 @@ class Injected(Exception):
     pass
 
 
+# exceptions whose status / code cannot even be read (a property that raises, a value whose truth test raises): for the entry
+# points without retry component default_classifier then raises inside the exception handler - a raising classifier
+RAISING_SHAPES = ["status_property_raises", "code_property_raises", "status_bool_raises"]
+
+
 class Spy(CircuitBreaker):
     def __init__(self, **kw):
         super().__init__(**kw)
@@ -91,6 +96,18 @@ def run(sc):
         if o[0] == "V":
             return ("value", i, o[1] if len(o) > 1 else None)
         e = Scripted("scripted failure")
+        if o[0] == "X" and isinstance(o[1], str):
+            class Unreadable:
+                def __bool__(self):
+                    raise RuntimeError("truth value not available")
+
+            def boom(self):
+                raise RuntimeError("attribute not available")
+            ns = {"status_property_raises": {"status": property(boom)}, "code_property_raises": {"code": property(boom)},
+                  "status_bool_raises": {"status": Unreadable()}}[o[1]]
+            e = type("Scripted", (Scripted,), ns)("scripted failure")
+            e.klass = "UNKNOWN"
+            raise e
         if o[0] == "X":
             # an exception carrying status / code attributes of unusual types: whatever default_classifier makes of them (C19), the
             # call must still settle
